@@ -313,6 +313,25 @@ func TestC06_P_EntityFetch(t *testing.T) {
 				nfault++
 				ev.Case(fmt.Sprintf("%s b=%s %s fault@%s io=%v", kind, bucket(len(target.Entity)), access, pos, io_), true, "fault:"+pos)
 			}
+			if i > 0 {
+				// ... and with a bare well-known error value, one per block in rotation: io.EOF, fs.ErrNotExist, context.Canceled
+				// ..., and values that mean something when go-ipld-prime or this library produce them themselves
+				// (traversal.SkipMe: "leave this link out"; ErrNoSuchField; ErrIteratorOverread). Out of storage, for a block
+				// the entity's own code asked for, they are failures. (The entity root is left out: the traversal loads it
+				// itself, and go-ipld-prime documents SkipMe from the loader as a request to skip.)
+				st.Missing = map[cid.Cid]bool{c: true}
+				st.MissingBare = bareFaults[(i+len(target.Entity))%len(bareFaults)]
+				_, ferr, p := c06Access(st, root, target, path, access)
+				bare := st.MissingBare
+				st.Missing, st.MissingBare = map[cid.Cid]bool{}, nil
+				if p != nil {
+					t.Fatalf("C06 [%s] block #%d failing with bare %v: panic %v", desc, i, bare, p)
+				}
+				if ferr == nil {
+					t.Fatalf("C06 [%s]: the load of entity block #%d %s failed with the bare error value %T (%v) but the access reported success (partially loaded entity)", desc, i, c, bare, bare)
+				}
+				ev.Count("bare-fault", 1)
+			}
 		}
 		ev.Sample(map[string]any{"entity": kind, "entity_blocks": len(target.Entity), "levels": levels, "access": access, "path": path, "requested": len(log), "fault_runs": nfault, "store_blocks": st.Len()})
 	})
